@@ -49,7 +49,9 @@ func init() {
 const (
 	c05EnvCtrl  = "VERIF_C05_CTRL"
 	c05EnvEpoch = "VERIF_C05_EPOCH"
-	c05Deadline = 6 * time.Second
+	// generous: run() generates RSA keys for TLS instances before the first batch, which under a
+	// loaded machine has been seen to take more than 6 s (one false alarm, not reproducible)
+	c05Deadline = 15 * time.Second
 )
 
 // ---------------------------------------------------------------------------
